@@ -117,10 +117,10 @@ def positivity(rec, name, t, x, rho, p, e=None, c=None, T=None, extra=None, regi
     if name in VACUUM_OK:
         bad &= ~vac
     for i in np.where(bad)[0][:1]:
-        rec.add("pos:density>0", w, 1.0, 0.0, x=x[i], value=float(rho[i]), n_bad=int(bad.sum()))
+        rec.add("pos:density>0", w, 1.0, 0.0, x=x[i], val=float(rho[i]), n_bad=int(bad.sum()))
     bad = ~(p >= 0)
     for i in np.where(bad)[0][:1]:
-        rec.add("pos:pressure>=0", w, 1.0, 0.0, x=x[i], value=float(p[i]), n_bad=int(bad.sum()))
+        rec.add("pos:pressure>=0", w, 1.0, 0.0, x=x[i], val=float(p[i]), n_bad=int(bad.sum()))
     for nm, f in (("energy", e), ("sound_speed", c), ("temperature", T)):
         if f is None:
             continue
@@ -131,11 +131,11 @@ def positivity(rec, name, t, x, rho, p, e=None, c=None, T=None, extra=None, regi
         scale = np.nanmax(np.abs(f)) if np.isfinite(f).any() else 1.0
         bad = ~(f >= -1e-13 * scale) & ~vac          # undefined 0/0 in a vacuum is C20's business
         for i in np.where(bad)[0][:1]:
-            rec.add("pos:%s>=0" % nm, w, 1.0, 0.0, x=x[i], value=float(f[i]), n_bad=int(bad.sum()))
+            rec.add("pos:%s>=0" % nm, w, 1.0, 0.0, x=x[i], val=float(f[i]), n_bad=int(bad.sum()))
     for nm, f in (extra or {}).items():
         bad = ~(np.asarray(f, float) >= 0)
         for i in np.where(bad)[0][:1]:
-            rec.add("pos:%s>=0" % nm, w, 1.0, 0.0, x=x[i], value=float(f[i]), n_bad=int(bad.sum()))
+            rec.add("pos:%s>=0" % nm, w, 1.0, 0.0, x=x[i], val=float(f[i]), n_bad=int(bad.sum()))
     return nvac
 
 
@@ -208,7 +208,7 @@ def hydro_profile(A, t, rec, C, dg, cnt):
         dg.add(np.asarray(r_))
     names = sol.dtype.names
     cfield = np.asarray(sol["sound_speed"]) if "sound_speed" in names else None
-    nv = positivity(rec, name, t, pts, M[J.RHO], M[J.P], e=M[J.E] if np.isfinite(M[J.E]).any() or True else None, c=cfield)
+    nv = positivity(rec, name, t, pts, M[J.RHO], M[J.P], e=M[J.E] if np.isfinite(M[J.E]).any() else None, c=cfield)
     C["vacuum_points"] = C.get("vacuum_points", 0) + nv
     C["points"] = C.get("points", 0) + len(pts)
     # ---- compressive shocks
@@ -335,7 +335,7 @@ def mader_task(task, rec, C, dg):
                     over = max(f[trans] - hi_, lo_ - f[trans], 0.0) / sc
                     if over > NOISE:
                         rec.add("bounded:%s" % nm, {"t": t, "N": N, "cell": "transition"}, float(over), NOISE, offset=k, index=int(trans),
-                                value=float(f[trans]), neighbours=[float(f[trans - 1]), float(f[trans + 1])])
+                                val=float(f[trans]), neighbours=[float(f[trans - 1]), float(f[trans + 1])])
             nt.append("Mader|%d|%g|%g|%g|%d" % (N, up, g, t, k))
     return evals, nt
 
@@ -478,6 +478,8 @@ def run_task(task):
                 try:
                     n = hydro_profile(A, t, rec, C, dg, cnt)
                 except Exception as ex:
+                    if not X.solver_fault(ex):
+                        raise
                     C["call_exceptions"] = C.get("call_exceptions", 0) + 1
                     k = "exc:%s:%s" % (name, type(ex).__name__)
                     C[k] = C.get(k, 0) + 1
@@ -492,6 +494,8 @@ def run_task(task):
         res["digest"] = dg.add("inadmissible").hex()
         return res
     except Exception as ex:
+        if not X.solver_fault(ex):
+            raise
         C["construct_exceptions"] = 1
         C["cexc:%s:%s" % (name, type(ex).__name__)] = 1
         res["digest"] = dg.add("cexc", type(ex).__name__).hex()
